@@ -24,7 +24,7 @@ CHECKS = {
          "DESIGN.md section 4, C01"),
  "C02": ("exploration",
          "Differential execution of DNSEngine.MatchRequest against a reference resolution that scans every rule with a fresh request: NetworkRules set, nil-ness/class/candidate membership of the basic rule, host rules only without a basic rule and split by family, matched flag; lists mix DNS-level and browser-only rules, hosts lines and bare domains over FastHash-colliding host names; plus the 58 k-line hosts file and the SDN filter with real and perturbed names.",
-         "Match / host names define 'matches'; the applicability classification follows the statement with content-type and match-case as declared don't-care; sampled.",
+         "'Matches' is the rule's own Match, which is compared in the same run with the independent spec-level matcher of C04 wherever that has an opinion (mask rules without $badfilter); the applicability classification follows the statement with content-type and match-case as declared don't-care; sampled.",
          "runtime differential oracle (reference resolution over all rules) with hook-event coverage counters",
          "DESIGN.md section 4, C02"),
  "C12": ("exploration",
